@@ -103,8 +103,35 @@ class Ws:
 	def __iter__(self) -> Iterator[str]:
 		return iter(self.ws)
 
+class Root:
+	tag: str
+
+	def __init__(self) -> None:
+		self.tag = 'r'
+
+	def who(self) -> str:
+		return 'root'
+
+class Left(Root):
+	pass
+
+class Right:
+	tag: int
+
+	def __init__(self) -> None:
+		self.tag = 1
+
+	def who(self) -> int:
+		return 1
+
+	def only(self) -> float:
+		return 1.5
+
+class Target(Left, Right):
+	pass
+
 '''
-SIGNATURE = 'n: int, x: float, b: bool, s: str, xs: list[int], ys: list[str], d: dict[str, int], t: tuple[int, str], c: C, e: E, xss: list[list[int]], dl: dict[str, list[float]], cs: list[C], xa: Ints, rows: Rows, da: DS, xo: list[int] | None, co: C | None, lo: list[C] | None, xn: None | list[int], cn: None | C, ln: None | list[C], gi: G[int], gs: G[str], ig: IG, ig2: IG2, cd: Cd, wz: Ws, id: int, max: float, hash: str, iter: list[int], min: C'
+SIGNATURE = 'n: int, x: float, b: bool, s: str, xs: list[int], ys: list[str], d: dict[str, int], t: tuple[int, str], c: C, e: E, xss: list[list[int]], dl: dict[str, list[float]], cs: list[C], xa: Ints, rows: Rows, da: DS, xo: list[int] | None, co: C | None, lo: list[C] | None, xn: None | list[int], cn: None | C, ln: None | list[C], gi: G[int], gs: G[str], ig: IG, ig2: IG2, cd: Cd, wz: Ws, id: int, max: float, hash: str, iter: list[int], min: C, mi: Target'
 
 
 def describe(v) -> str:
@@ -137,7 +164,7 @@ def runtime_types(texts: list[str]) -> list[str]:
 	exec(PRELUDE, scope)
 	C, E, G, IG, Cd, Ws = scope['C'], scope['E'], scope['G'], scope['IG'], scope['Cd'], scope['Ws']
 	IG2 = scope['IG2']
-	env = {'n': 3, 'x': 1.5, 'b': True, 's': 'a,b', 'xs': [1, 2], 'ys': ['a', 'b'], 'd': {'a': 1}, 't': (1, 'z'), 'c': C(2), 'e': E.A, 'xss': [[1], [2]], 'dl': {'a': [1.5]}, 'cs': [C(1)], 'xa': [1, 2], 'rows': [[1], [2]], 'da': {'a': 1}, 'xo': [3], 'co': C(1), 'lo': [C(1)], 'xn': [4], 'cn': C(2), 'ln': [C(2)], 'gi': G(1), 'gs': G('s'), 'ig': IG(2), 'ig2': IG2(3), 'cd': Cd(2), 'wz': Ws(), 'id': 4, 'max': 2.5, 'hash': 'h', 'iter': [5], 'min': C(3)}
+	env = {'n': 3, 'x': 1.5, 'b': True, 's': 'a,b', 'xs': [1, 2], 'ys': ['a', 'b'], 'd': {'a': 1}, 't': (1, 'z'), 'c': C(2), 'e': E.A, 'xss': [[1], [2]], 'dl': {'a': [1.5]}, 'cs': [C(1)], 'xa': [1, 2], 'rows': [[1], [2]], 'da': {'a': 1}, 'xo': [3], 'co': C(1), 'lo': [C(1)], 'xn': [4], 'cn': C(2), 'ln': [C(2)], 'gi': G(1), 'gs': G('s'), 'ig': IG(2), 'ig2': IG2(3), 'cd': Cd(2), 'wz': Ws(), 'id': 4, 'max': 2.5, 'hash': 'h', 'iter': [5], 'min': C(3), 'mi': scope['Target']()}
 	out = []
 	for text in texts:
 		try:
